@@ -107,12 +107,12 @@ def run(ctx):
     # ---- 1. the models: intended design accepted, named ways to go wrong rejected (independent TLC runs, 4 at a time)
     good = [("HealthFlags", c) for c in (["HealthFlags.cfg", "HealthFlags_n3.cfg"] if q else ["HealthFlags_thorough.cfg", "HealthFlags_thorough_n3.cfg"])]
     good += [("HealthChecker", "HealthChecker.cfg" if q else "HealthChecker_thorough.cfg"),
-             ("HealthWords", "HealthWords.cfg"), ("HealthWords", "HealthWords_hc22.cfg"),
+             ("HealthWords", "HealthWords.cfg"), ("HealthWords", "HealthWords_hc22.cfg"), ("HealthWordBirth", "HealthWordBirth.cfg"),
              ("HealthCheckLoop", "HealthCheckLoop.cfg" if q else "HealthCheckLoop_thorough.cfg")]
     bad = [("HealthFlags", "HealthFlags_defect.cfg"), ("HealthChecker", "HealthChecker_defect1.cfg"),
            ("HealthChecker", "HealthChecker_defect2.cfg"), ("HealthCheckLoop", "HealthCheckLoop_defect.cfg"),
            ("HealthCheckLoop", "HealthCheckLoop_defect2.cfg"), ("HealthCheckLoop", "HealthCheckLoop_defect3.cfg"),
-           ("HealthWords", "HealthWords_defect.cfg")]
+           ("HealthWords", "HealthWords_defect.cfg"), ("HealthWordBirth", "HealthWordBirth_defect_LoadThenStore.cfg")]
     nw_tlc = max(2, vlib.NCPU // 4)
     with ThreadPoolExecutor(max_workers=4) as ex:
         rs = list(ex.map(lambda mc: vlib.run_tlc(ctx, FAM, mc[0], mc[1], workers=nw_tlc, timeout=1500, expect_ok=False), good + bad))
@@ -160,6 +160,9 @@ def run(ctx):
     tlog = vlib.run_driver(ctx, binary, ["-mode", "thr", "-cases", tcases, "-trace", ttrace, "-par", "96"], timeout=1700)
     wtrace = os.path.join(ctx.tmp, "words.ndjson")
     wlog = vlib.run_driver(ctx, binary, ["-mode", "words", "-cases", wcases, "-trace", wtrace, "-par", "8"], timeout=1200)
+    btrace = os.path.join(ctx.tmp, "birth.ndjson")
+    nbirth = 6000 if q else 60000
+    vlib.run_driver(ctx, binary, ["-mode", "birth", "-trace", btrace, "-par", str(nbirth)], timeout=900)
     wsumm = json.load(open(wtrace + ".summary"))
     ctx.cov["words_driver"] = wsumm
     if wsumm["failed"]:
@@ -220,6 +223,22 @@ def run(ctx):
         st = span.get(rej, 1)
         vlib.report_failure(ctx, "C16:words:trace-rejected:" + evs[rej - 1]["ev"], dict(line=rej, history=evs[st - 1:rej]))
 
+    # how the word comes into being: host objects of a never-seen address created at the same moment
+    evs, mm, rej = validate(ctx, "HealthWordBirthTrace", btrace, "birth")
+    ctx.cov["traces_validated_against_impl"] += len(evs)
+    ctx.cov["evaluations"] += len(evs)
+    ctx.cov["trace_events"]["birth"] = len(evs)
+    ctx.cov["birth"] = dict(addresses=len(evs), creators_per_address=4, through_host_objects=sum(1 for e in evs if e["via"] == "host"))
+    ctx.sample({"part": "birth", "trace_head": evs[:2]})
+    seen = set()
+    for line in sorted(mm):
+        for k in sorted(mm[line]):
+            if k not in seen:     # one report per kind: every address is an independent repetition of the same scenario
+                seen.add(k)
+                vlib.report_failure(ctx, "C16:birth:%s" % k, dict(line=line, event=evs[line - 1], addresses_with_this_mismatch=sum(1 for l2 in mm if k in mm[l2])))
+    if rej is not None:
+        vlib.report_failure(ctx, "C16:birth:trace-rejected", dict(line=rej, event=evs[rej - 1]))
+
     # thresholds
     evs, mm, rej = validate(ctx, "HealthCheckerTrace", ttrace, "new")
     span = case_spans(evs, "new")
@@ -255,7 +274,7 @@ def run(ctx):
                        "cluster with NewSimpleHost hosts, a cluster-manager cluster and the records of 1-2 STRICT_DNS domains resolved through a "
                        "loopback DNS server have) x every sequence of 2 operations (set/clear on any host object; check ok/fail of a resolved "
                        "host through the cluster's health checker, thresholds 1/1) and of 4 check results with thresholds 2/2; every host "
-                       "object is read after every operation. thresholds: every result sequence "
+                       "object is read after every operation. birth: 6000 (thorough 60000) never-seen addresses, for each 4 creators released together from a spin barrier look the word up (every 16th address: build a host object with NewSimpleHost), a condition is set through one of them and all are read (a statistical search for the creation race - no point exists between lookup and insertion in the intended design where a gate could hold a creator). thresholds: every result sequence "
                        "of length 5 (thorough 7) over ok/fail/timeout x thresholds {0,1,2,3}^2 x initial words, and every sequence of length 3 "
                        "(thorough: 4, sampled) over ok/fail/timeout + late answers of a timed-out check at each of 4 positions (timer fired / "
                        "timeout handled / next check started / next check handled) x thresholds {1,2,3}^2, replayed through the real "
